@@ -13,6 +13,8 @@ META["explanation"] += " " + 'Also: iterator continuation discipline (one snapsh
 META["explanation"] += " " + 'Also (round 11): a new bucket node is linked in front of resident nodes of equal reverse hash, an insertion helps unlink only nodes seen REMOVED, no table access between thread_offline() and thread_online().'
 
 
+META["explanation"] += " " + 'Also (round 14): bucket memory is private anonymous memory (mmap arguments); the emptiness walk gives back the read-side state it took.'
+
 RULES = [
     ("C05.pub", lambda c, r: lfht.rule_pub(c, r, "C05.pub")),
     ("C05.mmapargs", lambda c, r: lfht.rule_mmapargs(c, r, "C05.mmapargs")),   # bucket memory is private anonymous memory: shared with a forked child, the child's updates rewrite the parent's chains
